@@ -27,11 +27,11 @@ const VerifNumStatuses = int(datatransfer.AwaitingAcceptance) + 1
 
 // VerifEnv is a recording ChannelEnvironment double.
 type VerifEnv struct {
-	Self       peer.ID
-	Cleanups   []datatransfer.ChannelID
-	Unprotects []peer.ID
+	Self          peer.ID
+	Cleanups      []datatransfer.ChannelID
+	Unprotects    []peer.ID
 	UnprotectTags []string
-	Protects   int
+	Protects      int
 }
 
 func (e *VerifEnv) Protect(id peer.ID, tag string) { e.Protects++ }
